@@ -1,7 +1,9 @@
 ------------------------------ MODULE MC_Heap ------------------------------
 (* C09: histories of assignments, compound assignments, ++/--, reads, calls  *)
-(* that mutate a parameter and for-in loops over two variables and the input *)
-(* document `$`.  Every history is emitted with the complete expected state  *)
+(* that mutate (or step) a parameter, for-in loops (one and two variables,   *)
+(* over arrays and objects) whose body stores to or steps the loop variable, *)
+(* pluck, and the length-changing methods pop / popfirst / push through any  *)
+(* path, over two variables and the input document `$`.  Every history is emitted with the complete expected state  *)
 (* (x, y, $) after every operation, under the intended semantics (JqHeap     *)
 (* part 1) and, where it differs, under the slice-header semantics of the    *)
 (* pinned code without / with padding reads (part 3: "g0" / "g1").           *)
